@@ -95,6 +95,8 @@ int main(int argc, char** argv) {
             outXform(S("X_GB", b), M.bodies[b].getBodyTransform(s));
             outSV(S("V_GB", b), M.bodies[b].getBodyVelocity(s));
         }
+        // potential energy asked for before any force has been computed in this state (elements with lazy caches take another route)
+        if (!upd) out("PE0", frc.calcPotentialEnergyContribution(s));
         Dump D{M, frc};
         auto extras = [&]() {     // element-specific accessors, evaluated with the current parameters
             if (el == "Gravity" || el == "GravityVec") {
